@@ -17,7 +17,9 @@ PROP = "C13"
 LEVEL = "proof"
 TECHNIQUE = "SMT (z3 QF_BV) over the netlist of the real manager output for each design of the family, one combinational frame, all inputs free; counterexamples replayed on amaranth.sim"
 BOUNDS = {
-    "quick": "32 designs: Connect with 1..2 callers per side, 0..2 extra mocked callees per caller, data widths 2/0..2 (reverse direction), "
+    "quick": "11 condwrap designs (Connect behind 0..2 conditionally called wrapper methods; both sides conditional), 6 nested2 designs (simultaneous "
+             "chain meth ~ outer ~ inner under a conditional call, with / without Connect), 9 chains of 1..3 Connects whose first write / last read side has no caller "
+             "(each: refused at elaboration or correct), and 32 designs: Connect with 1..2 callers per side, 0..2 extra mocked callees per caller, data widths 2/0..2 (reverse direction), "
              "callers through an intermediate method; raw simultaneous() between two methods with free ready pins, a chain of three, "
              "and a method with a transaction; every readiness/request/data value",
     "thorough": "about 300 designs: up to 3 callers per side, 0..2 extra callees, data widths 1..3, reverse widths 0..3, intermediate methods on either side, "
